@@ -44,6 +44,8 @@ def gen_script(rng, max_ops, profile):
         if p in DYN:
             dynflags[p] = rng.pick(profile.get('dynflags', COHERENT_DYN_FLAGS))
             lines.append('reg %d %d' % (p, dynflags[p]))
+        elif profile.get('late_reg') and rng.chance(profile['late_reg'], 100):
+            pass        # registered on first use, possibly under lock with commands already parked
         else:
             lines.append('reg %d' % p)
     vc = 0
